@@ -168,30 +168,40 @@ def concrete_fast(kind, rnd):
     m2 = list(base)
     s2 = Simulator(m2)
     s2.registers[:] = regs
+    # contract: the fast closure performs k >= 1 iterations of the plain instruction (it may hand back to the
+    # run loop early, e.g. when the copy reaches the instruction's own bytes); with IFF set it performs exactly one
+    def differences():
+        out = []
+        for i in range(30):
+            if s1.registers[i] != s2.registers[i]:
+                g, e = s1.registers[i], s2.registers[i]
+                if i == Z.F and kind != 'djnz':
+                    g &= 0xD7
+                    e &= 0xD7
+                    if g == e:
+                        continue
+                out.append(('post.' + Z.REGNAMES[i], g, e))
+        if not out and m1 != m2:       # memory is compared only when the registers already agree (cost)
+            out.append(('post.mem', [(a, m1[a], m2[a]) for a in range(65536) if m1[a] != m2[a]][:4]))
+        return out
     n = 0
-    while True:
+    first = None
+    diffs = None
+    while n < 70000:
         getattr(s2, seq[0])[seq[1]]()
         n += 1
-        # the fast closure performs exactly what repeated execution does until PC moves on
-        # (or, for LDIR/LDDR, until the instruction itself has been overwritten)
-        if s2.registers[Z.PC] != pc or n > 70000:
+        d = differences()
+        if first is None:
+            first = d
+        if not d:
+            diffs = []
+            break
+        if s2.registers[Z.PC] != pc or regs[Z.IFF]:
             break
         if m2[pc] != base[pc] or m2[(pc + 1) & 0xFFFF] != base[(pc + 1) & 0xFFFF]:
             break
-        if regs[Z.IFF]:
-            break
-    diffs = []
-    for i in range(30):
-        if s1.registers[i] != s2.registers[i]:
-            g, e = s1.registers[i], s2.registers[i]
-            if i == Z.F and kind != 'djnz':
-                g &= 0xD7
-                e &= 0xD7
-                if g == e:
-                    continue
-            diffs.append(('post.' + Z.REGNAMES[i], g, e))
-    if m1 != m2:
-        diffs.append(('post.mem', [(a, m1[a], m2[a]) for a in range(65536) if m1[a] != m2[a]][:4]))
+    if diffs is None:
+        diffs = first or [('no iteration count matches',)]
     if diffs:
         diffs.append(('case', kind, regs, base[pc:pc + 2]))
     return diffs
@@ -201,7 +211,7 @@ def check_fast_paths(rep, prop, tier):
     """djnz_fast / ldir_fast: relational contract 'equal to iterating the plain
     closure'. The loop of ldir_fast needs a quantified array invariant that is
     not attempted (DESIGN.md risk register): bounded stand-in, never counted as proved."""
-    n = 300 if tier == 'quick' else 5000
+    n = 300 if tier == "quick" else 1500
     rnd = random.Random('fast/%d' % __import__('props.common', fromlist=['x']).seed())
     for kind, fname in (('djnz', 'skoolkit.simulator.Simulator.djnz_fast'), ('ldir', 'skoolkit.simulator.Simulator.ldir_fast[inc=1]'),
                         ('lddr', 'skoolkit.simulator.Simulator.ldir_fast[inc=-1]')):
